@@ -2,7 +2,7 @@
 """Generates MANIFEST.json. Edit BUILT / META here, then run."""
 import json,os,subprocess
 root=os.path.dirname(os.path.dirname(os.path.abspath(__file__)))
-BUILT=["C01","C02","C03","C05","C07","C08","C09","C10","C11","C12","C13","C14","C15","C16","C17","C18","C19"]
+BUILT=["C01","C02","C03","C04","C05","C06","C07","C08","C09","C10","C11","C12","C13","C14","C15","C16","C17","C18","C19"]
 RT="runtime monitoring: "
 def M(cat,sec,tech,text,note): return dict(cat=cat,ref="DESIGN.md §4 "+sec,technique=RT+tech,text=text,note=note)
 HELD=" Held = no refuting execution among those observed (counts in the evidence file); it is not a proof for all inputs."
@@ -58,10 +58,12 @@ META={
  "C19":M("exploration","C19","archive/zip as writer AND reader: verdict predicted from the read-back entry list, 6 writer layouts per entry",
    "Generated entry lists (OOXML bookkeeping, markers at positions 2-10, near misses, directory entries, JAR/APK/ODF/EPUB, unrelated) written with 6 per-entry layouts (descriptor / sizes, store / deflate, extra field, directories) incl. an aliasing body family; P1 P2 P3 N1 N2 and the application/zip parent are decided from zip.Reader's names."+HELD,
    "Trusted: archive/zip; P3 only for a stored mimetype entry without extra field; P1 only for exactly one kind of marker among entries 2-6."),
- "C04":M("exploration","C04","history differential: probes after arbitrary predecessor detections compared with a fresh-process baseline and property oracles; read-only (mprotect) inputs; tail-poison differential; concurrent part under -race",
-   "TBD","TBD"),
- "C06":M("exploration","C06","Go race detector over gated stress histories + linearizability checking (porcupine) of recorded call/return histories against register and set models",
-   "TBD","TBD"),
+ "C04":M("exploration","C04","history differential against construction/oracle expectations with a fresh-process-per-probe baseline; pooled-state observation through a peek hook; read-only (mprotect) inputs; tail / spare-capacity poison differential; concurrent part under the race detector",
+   "39 fixed and generated probes with expectations decided by construction are detected as the first and only call of a fresh process and after histories of 1-6 predecessor detections from 29 kinds (every ordered pair exhaustively) with GOMAXPROCS=1 and GC off so pooled state really is reused (observed through the pool-peek hook); all seeds are detected from read-only pages three times and with 5 different tails / spare-capacity contents beyond the limit; the workload is repeated on 12 goroutines under -race."+HELD,
+   "Trusted: probe expectations (cross-checked by the fresh-process runs); sync.Pool reuse is observed, not forced."),
+ "C06":M("exploration","C06","Go race detector over gated stress histories + linearizability checking (porcupine) of recorded call/return histories against register / set models + half-built and caller-array monitors",
+   "Thousands of short gated histories (14 goroutines: SetLimit and Extend writers with caller-owned alias slices of every shape, Detect/DetectReader/DetectFile readers on probes that reveal the limit used and the newest extension per parent, limit-sensitive ordinary inputs, Lookup + accessor calls) at GOMAXPROCS 2/4/8/16; race batches under -race (every DATA RACE block is a violation), every history checked per partition with porcupine (limit register incl. sequential table T[x][v], extension register per parent, set per name); looked-up formats must never be half-built and caller alias arrays never written."+HELD,
+   "Trusted: porcupine v1.3.0; monotonic clock for call/return stamps; schedules are sampled; limit and tree are independent registers."),
 }
 hooks_commits=subprocess.run(["git","-C","/repo","log","--format=%H","--grep=^verif:"],capture_output=True,text=True).stdout.split()
 checks=[]
